@@ -398,6 +398,85 @@ Section L.
     - apply dget_dset_neq. exact H0.
   Qed.
 
+  (* the per-key state machine of "user-defined", over whole histories of operations on one configuration
+     (loads are sequences of per-key assignments: load_keys; they are left out of this alphabet) *)
+  Definition no_load (o : cop) : bool := match o with CLoad _ _ | CLoads _ => false | _ => true end.
+  Definition declared_target (fs : list (str * node F)) (o : cop) : bool :=
+    match o with
+    | CSet k _ | CReset k => match fget F k fs with Some _ => true | None => false end
+    | _ => true
+    end.
+  Definition mark_effect (o : cop) (r : oc) (k : str) (b : bool) : bool :=
+    match o, r with
+    | CSet k' _, OOk => b || str_eqb k k'
+    | CReset k', OOk => b && negb (str_eqb k k')
+    | _, _ => b
+    end.
+
+  Lemma apply_cop_marks : forall o w pre c vs fs w' c' r,
+    no_load o = true -> declared_target fs o = true ->
+    Config.apply_cop F lvalidate lto_python ldefault lcallable lflag vrun w pre c false vs fs o = (w', c', r) ->
+    forall k, defined c' k = mark_effect o r k (defined c k).
+  Proof.
+    intros o w pre c vs fs w' c' r Hn Hd H k. destruct o; cbn [no_load] in Hn; try discriminate; cbn [Config.apply_cop] in H;
+      cbn [declared_target] in Hd.
+    - (* CSet *) destruct (fget F k0 fs) eqn:Ef; [|discriminate]. destruct r.
+      + apply set_value_ok in H; [|rewrite Ef; discriminate]. destruct H as [v ->].
+        destruct (store_spec c k0 v k) as [Hs _]. rewrite Hs. reflexivity.
+      + apply set_value_err in H; [subst; reflexivity | discriminate].
+      + apply set_value_err in H; [subst; reflexivity | discriminate].
+      + apply set_value_err in H; [subst; reflexivity | discriminate].
+      + apply set_value_err in H; [subst; reflexivity | discriminate].
+    - (* CReset *) destruct (fget F k0 fs) as [nd|] eqn:Ef; [|discriminate].
+      destruct r; try (unfold Config.reset_key in H; rewrite Ef in H;
+                       destruct (build_val F ldefault lcallable w nd); destruct c; inversion H; fail).
+      pose proof (reset_spec w c fs k0 w' c' nd Ef H) as [H1 [_ [H3 _]]]. cbn [mark_effect].
+      destruct (str_eqb k k0) eqn:E.
+      + apply str_eqb_eq in E. subst k0. rewrite H1. rewrite andb_false_r. reflexivity.
+      + destruct (H3 k E) as [Hk _]. rewrite Hk. rewrite andb_true_r. reflexivity.
+    - (* CAppend *) cbn [mark_effect].
+      destruct (fget F k0 fs) as [[f|d1 v1 f1|req vs' fs']|]; try (inversion H; subst; reflexivity).
+      destruct (dget k0 (c_data c)) as [[v|c0|l]|]; try (inversion H; subst; reflexivity).
+      destruct (Config.make_item F lvalidate lto_python ldefault lcallable lflag vrun w (path_join pre k0) (N.of_nat (length l)) vs' fs' x) as [[w1 it] o1].
+      destruct it as [it|]; [|inversion H; subst; destruct r; reflexivity].
+      destruct o1; try (inversion H; subst; reflexivity). destruct c. inversion H; subst. reflexivity.
+    - (* CSetIdx *) cbn [mark_effect].
+      destruct (fget F k0 fs) as [[f|d1 v1 f1|req vs' fs']|]; try (inversion H; subst; reflexivity).
+      destruct (dget k0 (c_data c)) as [[v|c0|l]|]; try (inversion H; subst; reflexivity).
+      destruct (Config.make_item F lvalidate lto_python ldefault lcallable lflag vrun w (path_join pre k0) (N.of_nat (length l)) vs' fs' x) as [[w1 it] o1].
+      destruct it as [it|]; [|inversion H; subst; destruct r; reflexivity].
+      destruct o1; try (inversion H; subst; reflexivity).
+      destruct (i <? length l)%nat; destruct c; inversion H; subst; reflexivity.
+    - (* CValidate *) inversion H; subst. destruct collect; [reflexivity|]. destruct (Config.validate_errs _ _ _ _ _ _ _); reflexivity.
+  Qed.
+
+  Fixpoint run_marks (ops : list cop) (w : world) (c : cfg) (vs : list N) (fs : list (str * node F)) : list (cop * oc) * cfg :=
+    match ops with
+    | [] => ([], c)
+    | o :: r =>
+        let '(w1, c1, r1) := Config.apply_cop F lvalidate lto_python ldefault lcallable lflag vrun w [] c false vs fs o in
+        let '(tr, c2) := run_marks r w1 c1 vs fs in ((o, r1) :: tr, c2)
+    end.
+  Definition spec_marks (tr : list (cop * oc)) (k : str) (b : bool) : bool :=
+    fold_left (fun b' or => mark_effect (fst or) (snd or) k b') tr b.
+
+  (* a field is user-defined after a history exactly when some accepted assignment to it is not followed by a reset of it
+     (or it was user-defined before and never reset): rejected assignments, failed resets, validations and list operations
+     never change the answer *)
+  Theorem defined_history : forall ops w c vs fs,
+    forallb no_load ops = true -> forallb (declared_target fs) ops = true ->
+    forall k, defined (snd (run_marks ops w c vs fs)) k = spec_marks (fst (run_marks ops w c vs fs)) k (defined c k).
+  Proof.
+    induction ops as [|o ops IH]; intros w c vs fs Hn Hd k; [reflexivity|].
+    cbn [forallb] in Hn, Hd. apply andb_true_iff in Hn. apply andb_true_iff in Hd. destruct Hn as [Hn1 Hn2]. destruct Hd as [Hd1 Hd2].
+    cbn [run_marks].
+    destruct (Config.apply_cop F lvalidate lto_python ldefault lcallable lflag vrun w [] c false vs fs o) as [[w1 c1] r1] eqn:E.
+    specialize (IH w1 c1 vs fs Hn2 Hd2 k).
+    destruct (run_marks ops w1 c1 vs fs) as [tr c2] eqn:Er. cbn [fst snd] in *.
+    unfold spec_marks. cbn [fold_left fst snd]. fold (spec_marks tr k (mark_effect o r1 k (defined c k))).
+    rewrite IH. f_equal. eapply apply_cop_marks; eauto.
+  Qed.
+
   (* ---------------------------------------------------------------------------------------- *)
   (* C11: whole-configuration validation                                                       *)
   (* ---------------------------------------------------------------------------------------- *)
